@@ -1376,4 +1376,136 @@ theorem textform_api (cls : Cls) (kvs : List (Str × Val)) (name k f opx op vq v
   exact select_api cls kvs xp _ vals d fuel hq hpc htok
     (fun rl => textform_find cls kvs name k f opx op vq v lc rs rl hname hk hf hop hlit hv hl hrs hg fuel hfuel)
 
+/-! ### fan-out below any spelled prefix (token level) -/
+
+/-- walking a prefix that spells position `p`: the remaining steps are applied at `q ++ p` -/
+theorem find_spells_prefix (root : Val) (rl : Bool) {toks : List Str} {v : Val} {p : Pos} {c : Val}
+    (h : Spells toks v p c) : toks ≠ [] → ∀ (rest : List Str), rest ≠ [] → ∀ (q : Pos) (found : Str) (entry : Bool),
+      getAt root q = some v →
+      ∃ n found', n ≤ 2 * toks.length ∧ getAt root (q ++ p) = some c ∧ ∀ fuel,
+        findD (fuel + n) root [] false entry (toks ++ rest) (.at q) rl found
+          = findD fuel root [] false false rest (.at (q ++ p)) rl found' := by
+  induction h with
+  | nil v => intro h; exact absurd rfl h
+  | @key tok rest' cls kvs c p d hk hl hs ih =>
+    intro _ rest hrest q found entry hq
+    have hq' : getAt root (q ++ [.key tok]) = some c := by
+      rw [getAt_snoc, hq]; simp [child, hl]
+    by_cases hr : rest' = []
+    · subst hr
+      obtain ⟨rfl, rfl⟩ := hs.nil_inv
+      refine ⟨1, found ++ slash ++ tok, by simp, by simpa using hq', fun fuel => ?_⟩
+      simpa using find_key_step fuel root entry rl q found tok rest cls kvs _ hrest hq hk hl
+    · obtain ⟨n, found', hn, hg, hfd⟩ := ih hr rest hrest (q ++ [.key tok]) (found ++ slash ++ tok) false hq'
+      refine ⟨n + 1, found', by simp at hn ⊢; omega, by simpa using hg, fun fuel => ?_⟩
+      have := find_key_step (fuel + n) root entry rl q found tok (rest' ++ rest) cls kvs _ (by simp [hr]) hq hk hl
+      rw [show fuel + (n + 1) = fuel + n + 1 from rfl, List.cons_append, this, hfd fuel]
+      simp
+  | @idx tok e i rest' cls xs n0 c p d hk hn hx hs ih =>
+    intro _ rest hrest q found entry hq
+    have hq' : getAt root (q ++ [.idx n0]) = some c := by
+      rw [getAt_snoc, hq]; simp [child, hx]
+    by_cases hr : rest' = []
+    · subst hr
+      obtain ⟨rfl, rfl⟩ := hs.nil_inv
+      refine ⟨1, found ++ bracket (intStr i), by simp, by simpa using hq', fun fuel => ?_⟩
+      simpa using find_idx_step fuel root entry rl q found tok e i rest hrest cls xs n0 hq hk hn
+    · obtain ⟨n, found', hn', hg, hfd⟩ := ih hr rest hrest (q ++ [.idx n0]) (found ++ bracket (intStr i)) false hq'
+      refine ⟨n + 1, found', by simp at hn' ⊢; omega, by simpa using hg, fun fuel => ?_⟩
+      have := find_idx_step (fuel + n) root entry rl q found tok e i (rest' ++ rest) (by simp [hr]) cls xs n0 hq hk hn
+      rw [show fuel + (n + 1) = fuel + n + 1 from rfl, List.cons_append, this, hfd fuel]
+      simp
+  | @keyIdx tok k e i rest' cls kvs cls' xs n0 c p d hk hl hn hx hs ih =>
+    intro _ rest hrest q found entry hq
+    have hq1 : getAt root (q ++ [Seg.key k]) = some (.list cls' xs) := by
+      rw [getAt_snoc, hq]; simp [child, hl]
+    have hq' : getAt root (q ++ [Seg.key k] ++ [Seg.idx n0]) = some c := by
+      rw [getAt_snoc, hq1]; simp [child, hx]
+    by_cases hr : rest' = []
+    · subst hr
+      obtain ⟨rfl, rfl⟩ := hs.nil_inv
+      refine ⟨2, found ++ slash ++ k ++ bracket (intStr i), by simp, by simpa using hq', fun fuel => ?_⟩
+      rw [show fuel + 2 = fuel + 1 + 1 from rfl, List.cons_append, List.nil_append,
+        find_keyidx_step (fuel + 1) root entry rl q found tok k e i rest cls kvs _ hq hk hl,
+        find_idx_step fuel root false rl (q ++ [Seg.key k]) _ (bracket e) e i rest hrest cls' xs n0 hq1 hk.inner hn]
+      simp
+    · obtain ⟨n, found', hn', hg, hfd⟩ := ih hr rest hrest (q ++ [Seg.key k] ++ [Seg.idx n0])
+        (found ++ slash ++ k ++ bracket (intStr i)) false hq'
+      refine ⟨n + 2, found', by simp at hn' ⊢; omega, by simpa using hg, fun fuel => ?_⟩
+      rw [show fuel + (n + 2) = fuel + n + 1 + 1 from rfl, List.cons_append,
+        find_keyidx_step (fuel + n + 1) root entry rl q found tok k e i (rest' ++ rest) cls kvs _ hq hk hl,
+        find_idx_step (fuel + n) root false rl (q ++ [Seg.key k]) _ (bracket e) e i (rest' ++ rest) (by simp [hr]) cls' xs n0 hq1
+          hk.inner hn, hfd fuel]
+      simp
+
+/-- **Fan-out below any spelled path.**  If the tokens `toksP` spell the position of a list of dict
+records, then `toksP ++ ["[*]", f]` and `toksP ++ [f]` select `f` of the records that have it. -/
+theorem star_spelled (t : Val) (rl : Bool) {toksP : List Str} {p : Pos} {lc : Cls} {rs : List Val} (f : Str)
+    (hs : Spells toksP t p (.list lc rs)) (hne : toksP ≠ []) (hrs : ∀ r ∈ rs, isDict r = true) (hf : PlainKey f)
+    (fuel : Nat) (hfuel : fuel ≥ 2 * toksP.length + rs.length + 5) (tail : List Str)
+    (htail : tail = [bracket ['*'], f] ∨ tail = [f]) :
+    ∃ r, findD fuel t [] false true (toksP ++ tail) (.at []) rl slash = .ok (t, r) ∧
+      r.isFound = !(somes (rs.map (fieldOf f))).isEmpty ∧
+      (r.isFound = true → r.value = collect rl (somes (rs.map (fieldOf f)))) := by
+  obtain ⟨n, found', hn, hg, hfd⟩ := find_spells_prefix t rl hs hne tail (by rcases htail with rfl | rfl <;> simp) [] slash true rfl
+  obtain ⟨g, rfl⟩ : ∃ g, fuel = g + n := ⟨fuel - n, by omega⟩
+  rw [hfd g]
+  have hq : getAt t ([] ++ p) = some (.list lc rs) := hg
+  rcases htail with rfl | rfl
+  · exact star_records t rl _ found' _ f lc rs hq hrs hf.keyTok split_star g false (by omega)
+  · obtain ⟨g', rfl⟩ : ∃ g', g = g' + 1 := ⟨g - 1, by omega⟩
+    rw [find_name_on_list g' t false rl _ found' f f .none [] lc rs hq hf.keyTok.split hf.ne hf.notUp]
+    exact star_records t rl _ found' _ f lc rs hq hrs hf.keyTok split_star g' false (by omega)
+
+theorem mergedToks_append_key (p : Pos) (f : Str) : mergedToks (p ++ [.key f]) = mergedToks p ++ [f] := by
+  induction p using mergedToks.induct with
+  | case1 => simp [mergedToks]
+  | case2 k n rest ih => simp [mergedToks, ih]
+  | case3 k rest hne ih =>
+    cases rest with
+    | nil => simp [mergedToks]
+    | cons s r =>
+      cases s with
+      | key k2 =>
+        simp only [List.cons_append] at ih ⊢
+        rw [mergedToks, ih]
+        · simp [mergedToks]
+        · intro n rest h; cases h
+      | idx n => exact absurd rfl (hne n r)
+  | case4 n rest ih => simp [mergedToks, ih]
+
+theorem plainPos_append_key (p : Pos) (f : Str) (hp : PlainPos p) (hf : PlainKey f) : PlainPos (p ++ [.key f]) := by
+  induction p with
+  | nil => exact ⟨hf, trivial⟩
+  | cons s r ih =>
+    cases s with
+    | key k => exact ⟨hp.1, ih hp.2⟩
+    | idx n => exact ih hp
+
+theorem renderPos_append_key (p : Pos) (f : Str) : renderPos (p ++ [.key f]) = renderPos p ++ slash ++ f := by
+  simp [renderPos, renderSeg, slash]
+
+/-- **`P/f` for the record list at any position** (canonical path `P` = what `xpath()` prints) -/
+theorem star_implicit_path (cls : Cls) (kvs : List (Str × Val)) (p : Pos) (f : Str) (lc : Cls) (rs : List Val) (d : Val)
+    (hp : PlainPos p) (hne : p ≠ []) (hf : PlainKey f) (hget : getAt (.dict cls kvs) p = some (.list lc rs))
+    (hrs : ∀ r ∈ rs, isDict r = true) (fuel : Nat) (hfuel : fuel ≥ 2 * p.length + rs.length + 5) :
+    let xp := slash ++ renderPos p ++ slash ++ f
+    let vals := somes (rs.map (fieldOf f))
+    get fuel (.dict cls kvs) xp d = (.dict cls kvs, .ok (if vals.isEmpty then d else .list .n0 vals)) ∧
+    getItem fuel (.dict cls kvs) xp = (.dict cls kvs, if vals.isEmpty then .error .IndexError else .ok (.list .n0 vals)) ∧
+    first fuel (.dict cls kvs) xp d = (.dict cls kvs, .ok (firstOf vals d)) := by
+  intro xp vals
+  have hs := spells_merged p (.dict cls kvs) _ hp hget
+  have hlen := mergedToks_length_le p
+  have hxp : xp = slash ++ renderPos (p ++ [.key f]) := by simp [xp, renderPos_append_key, List.append_assoc]
+  have htok : tokenize xp = mergedToks p ++ [f] := by
+    rw [hxp, ← mergedToks_append_key]
+    exact tokenize_render _ (plainPos_append_key p f hp hf)
+  apply select_api cls kvs xp _ vals d fuel
+  · simp [xp, slash, startsWith]
+  · simp [xp, hasPathChar, slash]
+  · exact htok
+  · intro rl
+    exact star_spelled (.dict cls kvs) rl f hs (mergedToks_ne_nil p hne) hrs hf fuel (by omega) [f] (Or.inr rfl)
+
 end N0.XPath
